@@ -23,6 +23,8 @@
 #include <openssl/sha.h>
 
 #include "common/session.h"
+#include "common/supervise.h"
+#include "common/wirepeer.h"
 #include "data/hash_torrent.h"
 #include "download/download_wrapper.h"
 #include "torrent/bitfield.h"
@@ -36,29 +38,175 @@
 
 using namespace ltv;
 
+// T case (two lifetimes, real save):
+//   T <piece_len> <len> <len> ... | <pieces missing at start: i,i or -> | <history ops> | <post-crash: per-file perturbation ...> [lose=i,i]
+//   lifetime 1: files written (listed pieces corrupt on disk), download_add, open, full hash_check; then the ops:
+//       start | stop | dl (a scripted seeder serves every request until nothing is missing) | adv<minutes> |
+//       close | reopen (open + full hash_check) | save (resume_save_progress + resume_save_uncertain_pieces)
+//     then the torrent is removed ("crash").
+//   post-crash per file:  =  untouched   D  deleted   T<n>  truncated   W  rewritten in place, same size, mtime + 7 s
+//     lose=i,i : the bytes of these pieces are overwritten, file sizes and mtimes stay as they were
+//   lifetime 2: 10 s later: download_add, open, resume_load_progress of the saved object, hash_check(false).
+// Output:  saved=<per file R|0|1|2|A, or -> sbf=<V<n>|S<hex>|-> unc=<i,i|none> load_ranges=<membership> bits=<after check>
+//          ||  ssl=<valid on disk by OpenSSL> sound=<0|1>
+static std::vector<uint32_t> parse_list(const std::string& s) {
+  std::vector<uint32_t> v;
+  if (s == "-" || s.empty()) return v;
+  size_t a = 0;
+  while (a <= s.size()) {
+    size_t b = s.find(',', a);
+    v.push_back((uint32_t)std::stoul(s.substr(a, b == std::string::npos ? std::string::npos : b - a)));
+    if (b == std::string::npos) break;
+    a = b + 1;
+  }
+  return v;
+}
+
+static void serve_until_done(Session& S, Torrent* T) {
+  WirePeer P;
+  static unsigned ipn = 0;
+  ipn++;
+  std::string ip = "127.0." + std::to_string(1 + (ipn / 200) % 200) + "." + std::to_string(2 + ipn % 200);
+  if (!P.connect_to(S.listen_port(), ip.c_str())) throw std::runtime_error("peer connect");
+  uint32_t np = T->piece_count();
+  static unsigned conn_no = 0;
+  conn_no++;
+  char idbuf[21];
+  snprintf(idbuf, sizeof idbuf, "-LV0001-c10%09u", conn_no);
+  P.send_bytes(WirePeer::handshake(T->info_hash, std::string(idbuf, 20)) + WirePeer::bitfield(std::string(np, '1')));
+  pump(S, {&P});
+  HandshakeIn h;
+  if (!P.take_handshake(h)) throw std::runtime_error("no handshake from the library");
+  P.send_bytes(WirePeer::unchoke());
+  for (int round = 0; round < 2000; round++) {
+    pump(S, {&P});
+    WireMsg m;
+    bool any = false;
+    while (P.next_message(m)) {
+      if (getenv("C10_DEBUG")) fprintf(stderr, "[c10] msg id=%d len=%zu\n", m.id, m.body.size());
+      if (m.id == WirePeer::REQUEST && m.body.size() == 12) {
+        P.send_bytes(WirePeer::piece(m.u32(0), m.u32(4), T->range(m.u32(0), m.u32(4), m.u32(8))));
+        any = true;
+      }
+    }
+    torrent::Download d = T->dl;
+    S.settle([d]() { return true; }, 1);
+    if (!any) {
+      // nothing requested: done, or hashing still in flight
+      bool done = T->dl.file_list()->bitfield()->is_all_set();
+      if (done || P.eof) break;
+      S.settle([d]() { return d.file_list()->bitfield()->is_all_set(); }, 200);
+      if (T->dl.file_list()->bitfield()->is_all_set()) break;
+      if (round > 50) break;
+    }
+  }
+  P.close_all();
+  S.step();
+}
+
 static std::string run_case(Session& S, const std::string& line, unsigned serial) {
-  size_t bar = line.find('|');
-  if (bar == std::string::npos) return "BADCASE";
-  auto lay = split_ws(line.substr(0, bar)), pert = split_ws(line.substr(bar + 1));
-  if (lay.size() < 2 || pert.size() != lay.size() - 1) return "BADCASE";
+  std::vector<std::string> sec;
+  {
+    size_t p = 0;
+    while (true) {
+      size_t q = line.find('|', p);
+      sec.push_back(line.substr(p, q == std::string::npos ? std::string::npos : q - p));
+      if (q == std::string::npos) break;
+      p = q + 1;
+    }
+  }
+  if (sec.size() == 2) { sec.insert(sec.begin() + 1, " - "); sec.insert(sec.begin() + 2, " save "); }   // old short form
+  if (sec.size() != 4) return "BADCASE";
+  auto lay = split_ws(sec[0]), miss = split_ws(sec[1]), ops = split_ws(sec[2]), pert = split_ws(sec[3]);
+  std::vector<uint32_t> lose;
+  if (!pert.empty() && pert.back().rfind("lose=", 0) == 0) { lose = parse_list(pert.back().substr(5)); pert.pop_back(); }
+  if (lay.size() < 2 || pert.size() != lay.size() - 1 || miss.size() != 1) return "BADCASE";
   TorrentSpec spec;
   spec.name = "r" + std::to_string(serial);
   spec.piece_length = (uint32_t)std::stoul(lay[0]);
   for (size_t i = 1; i < lay.size(); i++) spec.files.push_back({"f" + std::to_string(i - 1), std::stoull(lay[i])});
+  spec.corrupt_pieces = parse_list(miss[0]);
   Torrent* T = S.add_torrent(spec);
   if (!T->dl.is_hash_checked()) return "BADCASE lifetime1";
   torrent::Object resume = torrent::Object::create_map();
-  torrent::resume_save_progress(T->dl, resume);
-  std::string saved;
-  for (auto& f : resume.get_key_list("files")) {
-    int64_t m = f.get_key_value("mtime");
-    saved += m == ~int64_t{0} ? '0' : m == ~int64_t{1} ? '1' : m == ~int64_t{2} ? '2' : m == ~int64_t{3} ? 'A' : 'R';
+  bool have_save = false;
+  for (auto& o : ops) {
+    if (o == "start") { if (T->dl.info()->is_open() && T->dl.is_hash_checked() && !T->dl.info()->is_active()) S.start(T); }
+    else if (o == "stop") S.stop(T);
+    else if (o == "dl") { if (T->dl.info()->is_active() && !T->dl.file_list()->bitfield()->is_all_set()) serve_until_done(S, T); }
+    else if (o.rfind("adv", 0) == 0) S.advance_us((int64_t)std::stoll(o.substr(3)) * 60 * 1000000ll);
+    else if (o == "close") { S.stop(T); T->dl.close(0); S.step(); }
+    else if (o == "reopen") {
+      if (!T->dl.info()->is_open()) {
+        T->dl.open(0);
+        T->dl.hash_check(false);
+        torrent::Download d = T->dl;
+        if (!S.settle([d]() { return d.is_hash_checked(); }, 20000)) return "BADCASE reopen";
+      }
+    } else if (o == "save") {
+      if (T->dl.info()->is_open() && T->dl.is_hash_checked()) {
+        torrent::resume_save_progress(T->dl, resume);
+        torrent::resume_save_uncertain_pieces(T->dl, resume);
+        have_save = true;
+      }
+    } else return "BADCASE op";
   }
-  std::string info = T->info_bytes, root = T->root, content = T->content;
+  std::string root = T->root, content = T->content;
+  // what was saved
+  std::string saved = "-", sbf = "-", unc = "none";
+  std::vector<int64_t> saved_m;
+  if (have_save && resume.has_key_list("files")) {
+    saved.clear();
+    size_t k = 0;
+    for (auto& f : resume.get_key_list("files")) {
+      int64_t m = f.get_key_value("mtime");
+      saved_m.push_back(m);
+      saved += m == ~int64_t{0} ? '0' : m == ~int64_t{1} ? '1' : m == ~int64_t{2} ? '2' : m == ~int64_t{3} ? 'A' : 'R';
+      k++;
+    }
+    if (resume.has_key_value("bitfield")) sbf = "V" + std::to_string(resume.get_key_value("bitfield"));
+    else if (resume.has_key_string("bitfield")) sbf = "S" + hex(resume.get_key_string("bitfield"));
+    if (resume.has_key_string("uncertain_pieces")) {
+      const std::string& u = resume.get_key_string("uncertain_pieces");
+      unc.clear();
+      for (size_t i = 0; i + 4 <= u.size(); i += 4) {
+        uint32_t v = (uint32_t((unsigned char)u[i]) << 24) | (uint32_t((unsigned char)u[i + 1]) << 16) |
+                     (uint32_t((unsigned char)u[i + 2]) << 8) | (unsigned char)u[i + 3];
+        if (!unc.empty()) unc += ",";
+        unc += std::to_string(v);
+      }
+      if (unc.empty()) unc = "empty";
+      if (!resume.has_key_value("uncertain_pieces.timestamp")) unc += "!nots";
+    }
+  }
+  std::string info = T->info_bytes;
   std::vector<std::string> hashes = T->piece_hashes;
   uint32_t np = T->piece_count(), pl = spec.piece_length;
   S.remove(T);
 
+  // ---- crash: lost pieces (sizes and mtimes unchanged), then the perturbations
+  {
+    uint64_t off = 0;
+    for (size_t k = 0; k < pert.size(); k++) {
+      uint64_t len = spec.files[k].length;
+      std::string p = root + "/f" + std::to_string(k);
+      struct stat st;
+      if (::stat(p.c_str(), &st) == 0 && !lose.empty()) {
+        std::fstream f(p, std::ios::binary | std::ios::in | std::ios::out);
+        for (uint32_t i : lose) {
+          uint64_t a = std::max<uint64_t>((uint64_t)i * pl, off), b = std::min<uint64_t>((uint64_t)(i + 1) * pl, off + len);
+          if (a >= b) continue;
+          std::string junk(b - a, 'L');
+          f.seekp((std::streamoff)(a - off));
+          f.write(junk.data(), (std::streamsize)junk.size());
+        }
+        f.close();
+        struct timespec ts[2] = {st.st_atim, st.st_mtim};
+        utimensat(AT_FDCWD, p.c_str(), ts, 0);
+      }
+      off += len;
+    }
+  }
   for (size_t k = 0; k < pert.size(); k++) {
     std::string p = root + "/f" + std::to_string(k);
     char c = pert[k][0];
@@ -107,8 +255,10 @@ static std::string run_case(Session& S, const std::string& line, unsigned serial
     }
   }
 
+  S.advance_us(10 * 1000000ll);
   torrent::Download d = S.add_raw("d4:info" + info + "e");
   d.file_list()->set_root_dir(root);
+  const_cast<torrent::DownloadInfo*>(d.info())->set_load_date((uint32_t)(S.now_us() / 1000000));
   d.open(0);
   std::string err;
   try {
@@ -133,12 +283,12 @@ static std::string run_case(Session& S, const std::string& line, unsigned serial
   S.step();
   std::error_code ec;
   std::filesystem::remove_all(std::filesystem::path(root).parent_path(), ec);
-  return "saved=" + saved + " load_ranges=" + ranges + " bits=" + bits + " ssl=" + ssl + " sound=" + (sound ? "1" : "0") +
-         (err.empty() ? "" : " load_exception=" + err);
+  return "saved=" + saved + " sbf=" + sbf + " unc=" + unc + " load_ranges=" + ranges + " bits=" + bits + " || ssl=" + ssl +
+         " sound=" + (sound ? "1" : "0") + (err.empty() ? "" : " load_exception=" + err);
 }
 
 // ------------------------------------------------------------------------------------------
-// L case:  L <piece_len> <load_date> | <len>,<size on disk or -1>,<mtime> ... | <resume spec> | <bad pieces or ->
+// L case:  L <piece_len> <load_date> | <len>,<size on disk or -1>,<mtime>[,p = padding file] ... | <resume spec> | <bad pieces or ->
 //   resume spec tokens:  top=m|x   files=none|notlist|<e>,<e>,..  (e: x not a map, n map without mtime,
 //                        s mtime is a string, <int> mtime value)   bf=none|V<int>|S<hex>
 //                        unc=none|<hex>|-   ts=none|str|<int>
@@ -171,10 +321,14 @@ static std::string run_load(Session& S, const std::string& line, unsigned serial
   uint32_t load_date = (uint32_t)std::stoul(head[2]);
   std::vector<int64_t> dsize, dmtime;
   for (size_t k = 0; k < fl.size(); k++) {
-    size_t a = fl[k].find(','), b = fl[k].find(',', a + 1);
-    spec.files.push_back({"f" + std::to_string(k), std::stoull(fl[k].substr(0, a))});
-    dsize.push_back(std::stoll(fl[k].substr(a + 1, b - a - 1)));
-    dmtime.push_back(std::stoll(fl[k].substr(b + 1)));
+    size_t a = fl[k].find(','), b = fl[k].find(',', a + 1), c = fl[k].find(',', b + 1);
+    FileSpec fsp;
+    fsp.path = "f" + std::to_string(k);
+    fsp.length = std::stoull(fl[k].substr(0, a));
+    fsp.padding = c != std::string::npos && fl[k].substr(c + 1) == "p";   // BEP 47 padding file: never on disk, zeros
+    spec.files.push_back(fsp);
+    dsize.push_back(fsp.padding ? -1 : std::stoll(fl[k].substr(a + 1, b - a - 1)));
+    dmtime.push_back(std::stoll(fl[k].substr(b + 1, c == std::string::npos ? std::string::npos : c - b - 1)));
   }
   auto T = Session::make_metainfo(spec);
   uint32_t np = T->piece_count(), pl = spec.piece_length;
@@ -193,6 +347,7 @@ static std::string run_load(Session& S, const std::string& line, unsigned serial
     uint64_t off = 0;
     for (size_t k = 0; k < fl.size(); k++) {
       uint64_t len = spec.files[k].length;
+      if (spec.files[k].padding) have[k] = len;
       if (dsize[k] >= 0) {
         std::string c = disk.substr(off, std::min<uint64_t>(len, (uint64_t)dsize[k]));
         have[k] = c.size();
@@ -298,7 +453,7 @@ static std::string run_load(Session& S, const std::string& line, unsigned serial
   return out;
 }
 
-int main() {
+static int worker_main() {
   std_setup();
   std::unique_ptr<Session> S;
   std::string line;
@@ -316,9 +471,11 @@ int main() {
     } catch (std::exception& e) {
       std::cout << "ERR:other " << e.what() << "\n";
       std::cout.flush();
-      _exit(4);
+      _exit(0);
     }
   }
   S.reset();
   return 0;
 }
+
+int main(int argc, char** argv) { return ltv::supervise(argc, argv, worker_main); }
